@@ -1,2 +1,4 @@
 -- Root of the `Aiorpcx` library: imports every property's theorem file.
 import Aiorpcx.C06.Props
+import Aiorpcx.C16.Props
+import Aiorpcx.C17.Props
